@@ -409,3 +409,10 @@ def r7(c):
         cl = b.op_closure(w[0].args[1])
         ok = any(x[0] == 'call' and x[1].endswith('::next') for x in cl)
     c.ob('registers/loop', ok, 'each register value of the slice is written big-endian, checked, once per iteration', '%d looped writes' % len(w), loc_of(b))
+
+
+@rule('C03', 'R03.8', 'C ABI flavour: the client operations build their ranges through the same validating constructors and forward to the same-named Rust call (C18/R18.4)',
+      needs=lambda P: 'rodbus_ffi' in P.crates)
+def r8(c):
+    from rules import c18
+    c18.r4(c)
